@@ -447,3 +447,7 @@ mod tests {
         ));
     }
 }
+
+#[cfg(kani)]
+#[path = "/verif/kani/rate_limit_proofs.rs"]
+mod verif_proofs;
